@@ -1,5 +1,8 @@
 import FcpptProofs.C12.Rewind
 import FcpptProofs.C12.Parsers
+import FcpptProofs.C12.Grammar
+import FcpptProofs.C12.GrammarTerm
+import FcpptProofs.C12.GrammarInv
 /-!
 # C12 — the parse stream reports true line/column and rewinds exactly
 
@@ -155,6 +158,198 @@ theorem column_doc (t : List Ch) (i : Nat) (hi : i ≤ t.length) :
       ∀ m, j ≤ m → m < i → t[m]? ≠ some nl :=
   column_doc_aux t i hi
 
+/-! ## The clients of `get_position` / `set_position`: backtracking combinators
+
+`P.parse` / `Sk.skip` (`Model/C12/Grammar.lean`) mirror `alternative`, `optional`, `repetition`,
+`repetition_plus`, `not_`, `fatal`, `sequence`, `basic_string`, the character parsers and the
+skippers `epsilon`, `literal`, `char_set`, `sequence`, `repetition`, running over a *traced* stream
+that records every `basic_stream` call.  `P.aparse` / `Sk.askip` (`Spec/C12Grammar.lean`) are the
+same combinators on a bare index: to backtrack is to continue at the index where the sub-parser
+started, the location of an error is computed from the text. -/
+
+/-- histories of stream operations are histories in the wider sense (`XOp`: stream operations and
+whole parses), so the theorems below, stated for the latter, cover them -/
+theorem xrun_ops (h : HState) (ops : List Op) : xrun h (ops.map .op) = (run h ops).1 := by
+  induction ops generalizing h with
+  | nil => rfl
+  | cons o os ih => simp only [List.map_cons, xrun, xstep, run]; exact ih _
+
+theorem ops_wf (ops : List Op) : ∀ o ∈ ops.map XOp.op, o.wf = true := by
+  intro o ho
+  obtain ⟨_, _, rfl⟩ := List.mem_map.mp ho
+  rfl
+
+/-- a recorded call left the stream live over the text `t` with the true line and column stored -/
+def Ev.True (t : List Ch) (e : Ev) : Prop :=
+  e.s.is.buf = t ∧ e.s.is.idx ≤ t.length ∧ e.s.is.bad = false ∧
+    e.s.loc = ⟨line t e.s.is.idx, column t e.s.is.idx⟩
+
+/-- **The combinators refine the PEG semantics on indices, call by call.**  In every state reached
+on a plain stream by any history of reads, position saves, rewinds and earlier parses of well-formed
+grammars (`XOp`; any recorded log), `phrase_parse(p, stream, sk)` — leading
+skipper, then the parser — for every parser `p` and skipper `sk`:
+* diverges exactly if the index semantics does (only possible for a repetition whose body succeeds
+  without consuming, see `wellformed_returns`);
+* otherwise yields the result of the index semantics — including, inside "Expected" errors, the
+  line and column *after* the offending character — and leaves the stream at the abstract index with
+  that index's true line/column stored;
+* and EVERY `get_char` / `get_position` / `set_position` call the combinators issued on the way left
+  the stream with the true line/column of its index stored (the log grows by such calls only). -/
+theorem combinators_refine_peg (t : List Ch) (xs : List XOp) (hw : ∀ o ∈ xs, o.wf = true) (log : List Ev) (sk : Sk) (p : P) :
+    let x : TS := ⟨(xrun (HState.open t none) xs).s, log⟩
+    let o := (sk.skip x).andThen (p.parse sk)
+    match aphrase t p sk x.s.is.idx with
+    | .error f => o.2 = .error f
+    | .ok (r, j) =>
+      o.2 = .ok r ∧ o.1.s.is.idx = j ∧ j ≤ t.length ∧ o.1.s.is.buf = t ∧ o.1.s.is.bad = false ∧
+        o.1.s.loc = ⟨line t j, column t j⟩ ∧
+        ∃ new, o.1.log = new ++ log ∧ ∀ e ∈ new, Ev.True t e := by
+  intro x o
+  have hat : At t x.s x.s.is.idx := live_at (liveH_xrun xs (liveH_open t) hw)
+  have := agrees_andThen (skip_agrees sk x _ hat) (parse_agrees (t := t) sk p)
+  show match (sk.askip t x.s.is.idx).andThen (p.aparse t sk) with
+    | .error f => o.2 = .error f
+    | .ok (r, j) => _
+  cases ha : (sk.askip t x.s.is.idx).andThen (p.aparse t sk) with
+  | error f => rw [ha] at this; exact this
+  | ok rj =>
+    obtain ⟨r, j⟩ := rj
+    rw [ha] at this
+    obtain ⟨h1, h2, new, h3, h4⟩ := this
+    refine ⟨h1, h2.idx, h2.le, h2.buf, Rel.bad h2, h2.loc, new, h3, ?_⟩
+    intro e he
+    obtain ⟨k, hk⟩ := h4 e he
+    exact ⟨hk.buf, by rw [hk.idx]; exact hk.le, Rel.bad hk, by rw [hk.idx]; exact hk.loc⟩
+
+/-- **The location stays true through every combinator on EVERY stream** — failing ones (any read
+budget `k`) included, and whatever the outcome (result, stream exception caught by `phrase_parse`,
+divergence): after `phrase_parse` from any reachable state, the buffer is the text, the index is
+inside it, the stored location is the true line/column of the index; and the same holds after every
+single `basic_stream` call the combinators issued. -/
+theorem combinators_keep_location (t : List Ch) (k : Option Nat) (ops : List Op) (log : List Ev) (sk : Sk) (p : P) :
+    let x : TS := ⟨(run (HState.open t k) ops).1.s, log⟩
+    let x' := (TS.phrase p sk x).1
+    (x'.s.is.buf = t ∧ x'.s.is.idx ≤ t.length ∧ x'.s.loc = ⟨line t x'.s.is.idx, column t x'.s.is.idx⟩) ∧
+      ∃ new, x'.log = new ++ log ∧ ∀ e ∈ new,
+        e.s.is.buf = t ∧ e.s.is.idx ≤ t.length ∧ e.s.loc = ⟨line t e.s.is.idx, column t e.s.is.idx⟩ := by
+  intro x x'
+  have hg : Good t k x.s := ⟨_, _, _, (run_refines_rel ops (rel_open t k)).1.forget⟩
+  have hs := safe_andThen (o := sk.skip x) (g := p.parse sk) (safe_skip sk x hg) (safe_parse sk p)
+  have hx' : x' = ((sk.skip x).andThen (p.parse sk)).1 := by
+    show (TS.phrase p sk x).1 = _
+    simp only [TS.phrase]
+    rcases (sk.skip x).andThen (p.parse sk) with ⟨y, r⟩
+    cases r with
+    | ok r => rfl
+    | error f => cases f <;> rfl
+  rw [hx']
+  obtain ⟨g, new, e1, e2⟩ := hs
+  exact ⟨g.loc, new, e1, fun e he => (e2 e he).loc⟩
+
+/-- **Location invariant for histories that interleave reads, position saves, rewinds AND whole
+parses** (any grammar, any skipper, any read budget, any length): the buffer is the text, the index
+is inside it, the stored location is the true line/column of the index, and every saved position is
+`(i, line i, column i)` for an index `i` of the text — so a position saved before, between or after
+parses can be restored at any later point. -/
+theorem location_inv_with_parses (t : List Ch) (k : Option Nat) (xs : List XOp) :
+    let x := xrun (HState.open t k) xs
+    x.s.is.buf = t ∧ x.s.is.idx ≤ t.length ∧ x.s.loc = ⟨line t x.s.is.idx, column t x.s.is.idx⟩ ∧
+      ∀ p ∈ x.saved, ∃ i, i ≤ t.length ∧ p = ⟨(i : Int), some ⟨line t i, column t i⟩⟩ := by
+  intro x
+  obtain ⟨g1, g2⟩ := goodH_xrun (t := t) (k := k) xs (goodH_open t k)
+  obtain ⟨a, b, c⟩ := g1.loc
+  exact ⟨a, b, c, g2⟩
+
+/-- `fcppt::parse::phrase_parse` itself (the function-try-block included): the result is the one of
+the index semantics whenever that returns. -/
+theorem phrase_result (t : List Ch) (xs : List XOp) (hw : ∀ o ∈ xs, o.wf = true) (log : List Ev) (sk : Sk) (p : P) (r : R) (j : Nat) :
+    let x : TS := ⟨(xrun (HState.open t none) xs).s, log⟩
+    aphrase t p sk x.s.is.idx = .ok (r, j) → (TS.phrase p sk x).2 = r ∧ (TS.phrase p sk x).1.s.is.idx = j := by
+  intro x ha
+  have := combinators_refine_peg t xs hw log sk p
+  simp only at this
+  rw [ha] at this
+  obtain ⟨h1, h2, _⟩ := this
+  rcases ho : (sk.skip x).andThen (p.parse sk) with ⟨x', res⟩
+  rw [ho] at h1 h2
+  simp only at h1 h2
+  subst h1
+  simp only [TS.phrase, ho]
+  exact ⟨trivial, h2⟩
+
+/-- **Well-formed grammars always return**: if every repetition body (of the parser and of the
+skipper) consumes when it succeeds, the index semantics returns on every text at every index — it
+never runs out of loop fuel — moves only forward and stays inside the text; a success of a consuming
+parser has moved forward.  With `combinators_refine_peg`: the model never reports divergence for
+such grammars, which are the ones the correspondence runs. -/
+theorem wellformed_returns (t : List Ch) (sk : Sk) (p : P) (hs : sk.wf = true) (hp : p.wf = true)
+    (i : Nat) (hi : i ≤ t.length) :
+    ∃ r j, aphrase t p sk i = .ok (r, j) ∧ i ≤ j ∧ j ≤ t.length ∧ (p.consumes = true → r = .ok () → i < j) :=
+  aphrase_prog t sk hs p hp i hi
+
+/-- **`not_` consumes nothing, exactly**: whatever the inner parser read (across newlines, into
+the end of input), afterwards the stream is in exactly the state the initial `get_position` left —
+same index, same three state bits, same stored location. -/
+theorem not_restores_exactly (t : List Ch) (xs : List XOp) (hw : ∀ o ∈ xs, o.wf = true) (log : List Ev) (sk : Sk) (p : P) (r : R) (j : Nat) :
+    let x : TS := ⟨(xrun (HState.open t none) xs).s, log⟩
+    p.aparse t sk x.s.is.idx = .ok (r, j) → ((P.not p).parse sk x).1.s = x.s.getPosition.1 := by
+  intro x ha
+  exact not_exact sk p (live_at (liveH_xrun xs (liveH_open t) hw)) ha
+
+/-- **`optional` of a failing parser consumes nothing, exactly** (same statement). -/
+theorem optional_restores_exactly (t : List Ch) (xs : List XOp) (hw : ∀ o ∈ xs, o.wf = true) (log : List Ev) (sk : Sk) (p : P)
+    (e : PError) (j : Nat) :
+    let x : TS := ⟨(xrun (HState.open t none) xs).s, log⟩
+    p.aparse t sk x.s.is.idx = .ok (.error e, j) → ((P.opt p).parse sk x).1.s = x.s.getPosition.1 := by
+  intro x ha
+  exact opt_exact sk p (live_at (liveH_xrun xs (liveH_open t) hw)) ha
+
+/-- **A position saved before a parse is still exact after it**: `p0` obtained by `get_position`
+in a reachable state (leaving stream state `s1`); later, from any reachable state, any
+`phrase_parse` that returns; then `set_position p0` yields exactly `s1` again. -/
+theorem saved_position_survives_parse (t : List Ch) (x1 : HState) (r1 : Reach t x1) (s1 : Stream) (p0 : Pos)
+    (hp : x1.s.getPosition = (s1, .ok p0)) (xs : List XOp) (hw : ∀ o ∈ xs, o.wf = true) (log : List Ev) (sk : Sk) (p : P) (r : R) (j : Nat) :
+    let x : TS := ⟨(xrun (HState.open t none) xs).s, log⟩
+    aphrase t p sk x.s.is.idx = .ok (r, j) →
+      ((sk.skip x).andThen (p.parse sk)).1.s.setPosition p0 = (s1, .ok ()) := by
+  intro x ha
+  have hat : At t x.s x.s.is.idx := live_at (liveH_xrun xs (liveH_open t) hw)
+  have := agrees_andThen (skip_agrees sk x _ hat) (parse_agrees (t := t) sk p)
+  have ha' : (sk.askip t x.s.is.idx).andThen (p.aparse t sk) = .ok (r, j) := ha
+  rw [ha'] at this
+  obtain ⟨_, h2, _⟩ := this
+  obtain ⟨a1, rel1, d1⟩ := r1.rel
+  obtain ⟨s, q, g1, _, g3⟩ := rewind_state rel1 h2 d1 rfl
+  rw [hp] at g1
+  obtain ⟨rfl, rfl⟩ : s1 = s ∧ p0 = q := by simpa using g1
+  exact g3
+
+/-- **`basic_string` in closed form** (`"Expected <string>"` carries no location): with `k` the
+length of the longest common prefix of the string and the rest of the text, the parser succeeds iff
+`k` is the whole string and then stands behind it; otherwise it fails with a location-free
+"Expected" and the offending character stays consumed (index `i + k + 1`, or the end of input). -/
+theorem string_parser_closed_form (t : List Ch) (sk : Sk) (s : List Ch) (i : Nat) (hi : i ≤ t.length) :
+    (P.str s).aparse t sk i = .ok
+      (if lcp s (t.drop i) = s.length then (.ok (), i + s.length)
+       else (.error (.plain (.exp none)), min (i + lcp s (t.drop i) + 1) t.length)) := by
+  simp only [P.aparse, astr_closed t s i hi]
+
+/-- `operator==` of locations and of positions is equality of all components. -/
+theorem location_eq_iff (a b : Loc) : a.eq b = true ↔ a = b := by
+  obtain ⟨l1, c1⟩ := a
+  obtain ⟨l2, c2⟩ := b
+  simp [Loc.eq]
+
+theorem position_eq_iff (a b : Pos) : a.eq b = true ↔ a = b := by
+  obtain ⟨o1, l1⟩ := a
+  obtain ⟨o2, l2⟩ := b
+  cases l1 <;> cases l2 <;> simp [Pos.eq, location_eq_iff]
+
+/-- `phrase_parse_stream` on an untouched istream is `phrase_parse` on a freshly opened stream
+(so `combinators_refine_peg` with the empty history applies). -/
+theorem phraseStream_fresh (t : List Ch) (k : Option Nat) (sk : Sk) (p : P) :
+    IStream.phraseStream p sk (IStream.open t k) = TS.phrase p sk ⟨Stream.open t k, []⟩ := rfl
+
 /-! ## Non-vacuity and concrete instances -/
 
 -- "xy\nz\n" (the text of test/parse/stream.cpp): read three characters, save, read to the end and
@@ -185,5 +380,32 @@ example :
 example :
     let s := (run (HState.open [97] none) [.pos, .get, .get]).1.s
     (s.is.seekg 0).fail = true ∧ (s.is.clear.seekg 0).fail = false := by decide
+
+-- `(a "\n" | a a) b` on "aab": the left alternative fails after consuming 'a' and rejecting the
+-- second 'a' (error location 1:3), the right one starts again at index 0 and succeeds, then 'b'
+example :
+    (TS.phrase (.seq (.alt (.seq (.lit 97) (.lit 10)) (.seq (.lit 97) (.lit 97))) (.lit 98)) .eps
+      ⟨Stream.open [97, 97, 98] none, []⟩).2 = .ok () := by decide
+
+-- both alternatives fail: the message skeleton carries both locations, each after its offender
+example :
+    (TS.phrase (.alt (.seq (.lit 97) (.lit 10)) (.lit 98)) .eps ⟨Stream.open [97, 97] none, []⟩).2
+    = .error ⟨[.lb, .exp (some ⟨1, 3⟩), .or, .exp (some ⟨1, 2⟩), .rb], false⟩ := by decide
+
+-- `*(a)` with the skipper `*space` on "a a\n": ends behind the last skipped blank, before the newline
+example :
+    (TS.phrase (.rep (.lit 97)) (.rep (.cset [32])) ⟨Stream.open [97, 32, 97, 10] none, []⟩).1.s.is.idx = 3 := by
+  decide
+
+-- the hypotheses of `wellformed_returns` hold for a nested repetition; a nullable body is rejected,
+-- and the model reports that such a grammar does not return
+example : (P.rep (.seq (.lit 97) (.rep (.lit 10)))).wf = true ∧ (P.rep (.opt .any)).wf = false := by decide
+example : (P.rep (.opt .any)).aparse [97] .eps 0 = .error .fuel := by decide
+
+-- the old behaviour that the seeded regression C12-2 introduced (column bumped by a failed read at
+-- the end of input) is refuted by the model: two reads at the end leave 1:2
+example :
+    (run (HState.open [97] none) [.get, .get, .get, .pos]).2
+    = [.ch (some 97), .ch none, .ch none, .pos ⟨1, some ⟨1, 2⟩⟩] := by decide
 
 end Fcppt.C12
